@@ -245,7 +245,7 @@ LEVEL_TEXT = {
         "DESIGN.md section 2, C13", "Oracle uses the crate's own parser and compare (judged by C05/C02).", []),
     "C14": _lt(
         "exhaustive enumeration of buffer lengths 0..=N+64 x forms x sentinel fills",
-        "Every buffer length up to N+64 for the three forms, 8 values, 3 position-dependent sentinel patterns: error and untouched buffer below N; exact representation and untouched tail otherwise.",
+        "Every buffer length up to N+64 for the three forms, 8 values, 3 position-dependent sentinel patterns: the error below N (the buffer's content after an error is not part of the property and not judged); exact representation and untouched tail otherwise.",
         "DESIGN.md section 2, C14", "Sentinel patterns are position dependent, so shifted or over-long writes are visible.", []),
     "C09": {
         "technique": "exhaustive enumeration of the complete 2^32 length domain and all 256 codes on the real encoder, compared with a linear-scan reference",
